@@ -357,3 +357,21 @@ package control
 //@   ensures !contributes() && has(t.ips, key) && t.ips[key] != nil && len(t.ips[key].owners) == 1 && has(t.ips[key].owners, ownerKey) ==> !present
 //@   loop 1
 //@     invariant !contributes() && len(t.ips[key].owners) == 1 && has(t.ips[key].owners, ownerKey) ==> !present
+
+// Connectivity slot key: byte-identical to the kernel's
+//   key = ((__u32)outbound * 6) + (domain_idx * 2) + ip_idx;      (control/kern/tproxy.c, wan_outbound_is_alive)
+// with domain_idx 0 = TCP, 1 = DNS UDP, 2 = data UDP and ip_idx 0 = IPv4, 1 = IPv6. The presence of that
+// C expression is re-checked on every run by the layout engine (c-anchor:connectivity-key).
+//@ func outboundConnectivityDomainIndex
+//@   requires networkType != nil
+//@   ensures networkType.L4Proto != "udp" ==> result == 0
+//@   ensures networkType.L4Proto == "udp" ==> result == 1 || result == 2
+//@   ensures networkType.L4Proto == "udp" ==> (result == 1 <==> networkType.EffectiveUdpHealthDomain() == dialer.UdpHealthDomainDns)
+//@   ensures 0 <= result && result <= 2
+//@ func outboundConnectivityMapKey
+//@   requires networkType != nil
+//@   ensures networkType.L4Proto != "udp" && networkType.IpVersion != "6" ==> result == outbound * 6
+//@   ensures networkType.L4Proto != "udp" && networkType.IpVersion == "6" ==> result == outbound * 6 + 1
+//@   ensures networkType.L4Proto == "udp" && networkType.IpVersion != "6" ==> result == outbound * 6 + 2 || result == outbound * 6 + 4
+//@   ensures networkType.L4Proto == "udp" && networkType.IpVersion == "6" ==> result == outbound * 6 + 3 || result == outbound * 6 + 5
+//@   ensures result < 1536
